@@ -204,6 +204,13 @@ def ref_normalize(q):
     if q.nonempty(q.ref("node[-1]"), "whether the remaining item is the branch's own value"):
         return q.ref("[compute_leaf_key([]), node[-1]]")
     pick = q.ref("next((idx, v) for idx, v in enumerate(node[:16]) if v)")
+    if not q.called(HEX + ".get_node", ("sub", pick, C(1))):
+        # second spelling: a for loop over enumerate(node[:16]) that is left by `break` at the first non-blank item
+        en = q.ref("enumerate(node[:16])")
+        for t, v in q.truth.items():
+            if v and t[0] == "sub" and t[2] == C(1) and t[1][0] == "iter" and t[1][1] == en:
+                if any(ev.k == "stmt" and isinstance(ev.node, ast.Break) for ev in q.st.events) and q.called(HEX + ".get_node", t):
+                    pick = t[1]
     sub = q.ref("self.get_node(X[1])", X=pick)
     ks = q.kinds(sub)
     if ks and ks <= frozenset(["LEAF", "EXT"]):
